@@ -559,7 +559,11 @@ def run_case(case: dict) -> dict:
             else:
                 want_status = None
                 need_req = False
-                if kind.startswith("http:"):
+                if kind.startswith("http_bin:"):
+                    want_status, need_req = int(kind[9:]), True
+                elif kind.startswith("status_bin:"):
+                    want_status, need_req = int(kind[11:]), True
+                elif kind.startswith("http:"):
                     want_status, need_req = int(kind[5:]), True
                 elif kind.startswith("status:"):
                     want_status, need_req = int(kind[7:]), True
